@@ -1,6 +1,16 @@
 import Driver.Util
 import EncodingRs.Model.Label
-/-! driver operations for C13 -/
+import EncodingRs.Spec.Label
+/-! driver operations for C13
+
+    label <hex of the label bytes> => <ENC ident | -> <ENC ident | ->      (for_label, for_label_no_replacement)
+
+The answer is the MODEL's (`Model.forLabel`, the hand model of the scanner and the binary search).  The
+transcribed Standard (`Spec.getEncoding`, "get an encoding") is evaluated on the same bytes as well: if
+the name it returns is not the name of the model's encoding (or one fails and the other does not) the
+answer is `spec-mismatch …`, which no implementation line equals, so a wrong transcription of the
+Standard is reported like a wrong model (`Thm.C13` proves the two equal for all byte strings; this is
+the executable cross-check of that statement's right-hand side against the real crate). -/
 open EncodingRs
 namespace Driver.Ops
 
@@ -18,7 +28,18 @@ def label (op : String) (args : List String) : Option (Option String) :=
   match op, args with
   | "label", [h] => some do
     let bs ← parseHex h
-    pure s!"{showEnc (Model.forLabel bs)} {showEnc (Model.forLabelNoReplacement bs)}"
+    let m := Model.forLabel bs
+    let mName := m.bind Model.encName
+    let sName := Spec.getEncoding bs
+    if mName != sName then
+      pure s!"spec-mismatch model={showEnc m} spec={(sName.map fun n => String.ofList (n.map Char.ofNat)).getD "-"}"
+    else
+    let mNr := (Model.forLabelNoReplacement bs).bind Model.encName
+    let sNr := if sName == some Spec.replacementName then none else sName
+    if mNr != sNr then
+      pure s!"spec-mismatch(no_replacement) model={showEnc (Model.forLabelNoReplacement bs)}"
+    else
+    pure s!"{showEnc m} {showEnc (Model.forLabelNoReplacement bs)}"
   | "label", _ => some none
   | _, _ => none
 
